@@ -523,6 +523,14 @@ template <class T> struct TR
             t = std::move(c);
             o.tag("move");
         }
+        else if (op == "moveback")
+        { // the moved-from ring is brought back to life by resize(); the moved-to object is dropped
+            size_t n = strtoul(w[1].c_str(), 0, 10);
+            { igris::ring<T> c(std::move(x)); }
+            x.resize(n); q.clear();
+            if (x.room() != n || x.buffer.size() != n + 1) o.fail("resize of a moved-from ring: room " + S(x.room()));
+            o.tag("move");
+        }
         else if (op == "write" || op == "read")
         {
             if constexpr (is_char)
